@@ -494,3 +494,49 @@ pub fn clip(s: &str) -> String {
         format!("{}…[{} bytes]", &s[..e], s.len())
     }
 }
+
+// ---------------------------------------------------------------- stack high-water probe
+
+/// Runs `f` on a fresh thread whose stack was painted with a pattern beforehand and returns the number of bytes of
+/// stack `f` dirtied (its deepest frame), or `None` where the probe cannot run (Miri, sanitizer lanes:
+/// `VMON_NO_STACKPROBE`). A run that needs more than the thread's 8 MiB hits the guard page: the process dies and
+/// the driver reports the death with the in-flight case. Panics inside `f` are contained and ignored here (the
+/// step/allocation passes report them).
+pub fn stack_high_water<F: FnOnce() + Send>(f: F) -> Option<usize> {
+    if cfg!(miri) || std::env::var_os("VMON_NO_STACKPROBE").is_some() {
+        return None;
+    }
+    const STACK: usize = 8 << 20;
+    const PAINT: usize = 7 << 20;
+    const PAT: u64 = 0x5a5a_a5a5_c3c3_3c3c;
+    #[inline(never)]
+    fn call<F: FnOnce()>(f: F) {
+        let _ = std::panic::catch_unwind(std::panic::AssertUnwindSafe(f));
+    }
+    std::thread::scope(|sc| {
+        std::thread::Builder::new()
+            .stack_size(STACK)
+            .spawn_scoped(sc, move || {
+                let marker = 0u64;
+                let sp = (std::hint::black_box(&marker) as *const u64 as usize) & !7;
+                let lo = sp - PAINT;
+                let hi = sp - 4096;
+                let mut p = lo;
+                while p < hi {
+                    unsafe { (p as *mut u64).write_volatile(PAT) };
+                    p += 8;
+                }
+                call(f);
+                let mut p = lo;
+                while p < hi {
+                    if unsafe { (p as *const u64).read_volatile() } != PAT {
+                        break;
+                    }
+                    p += 8;
+                }
+                sp - p
+            })
+            .ok()
+            .and_then(|h| h.join().ok())
+    })
+}
